@@ -77,6 +77,7 @@ func (s *Scanner) Scan() (
 	literal string,
 	pos Pos,
 ) {
+scanAgain:
 	s.skipWhitespace()
 
 	pos = s.file.FileSetPos(s.offset)
@@ -180,7 +181,7 @@ func (s *Scanner) Scan() (
 				if s.mode&ScanComments == 0 {
 					// skip comment
 					s.insertSemi = false // newline consumed
-					return s.Scan()
+					goto scanAgain       // (not a recursive call: a long run of comments must not grow the stack)
 				}
 				tok = token.Comment
 				literal = comment
